@@ -19,10 +19,10 @@
    signal is invoked once, in order -- for signal callbacks that leave the signal watch list
    alone; with cancelling callbacks only C18_cancelled_not_invoked is proved), C18_signal_reaches (nothing the handler recorded survives an iteration -- which is exactly
    what fails on the pinned code), C18_kernel_pending_delivered, C18_cancelled_not_invoked,
-   C18_poll_reports / C18_new_slot_silent (the two halves of "exactly the conditions reported
-   for their descriptor"), and the two refutations of the pinned behaviour. *)
+   C18_io_exact (with C18_table_consistent, C18_poll_reports, C18_new_slot_silent), and the two
+   refutations of the pinned behaviour. *)
 From Coq Require Import ZArith List.
-From Tickit Require Import LoopDefs LoopSigDefs LoopSigProofs.
+From Tickit Require Import LoopDefs LoopSigDefs LoopSigProofs LoopSigIO.
 Import ListNotations.
 Local Open Scope Z_scope.
 
@@ -87,6 +87,26 @@ Theorem C18_cancel_signal_gone : forall s id w, find_iow id (iows s) = None -> f
   dead (scancel s id) id.
 Proof. exact scancel_sig_dead. Qed.
 Print Assumptions C18_cancel_signal_gone.
+
+(* IO watches are invoked with exactly the conditions reported ready for their descriptor: in
+   an iteration whose ppoll reported ready descriptors, everything the dispatch loop logs for an
+   IO watch is the invocation of a watch that was live when ppoll returned, carrying
+   cond_of_revents (reported for ITS descriptor, restricted to what its slot asked for plus
+   ERR/HUP/NVAL) -- whatever the deferred callbacks and the other IO callbacks of the iteration
+   cancel or register (reused and fresh slots included).  [TW]: the poll table is consistent
+   with the list of live IO watches; it holds in every reachable state when the registered
+   descriptors are non-negative (next theorem). *)
+Theorem C18_io_exact : forall env fuel sleep s s' ret s2, TW s ->
+  ppoll (before_poll sleep s) = (ret, s2) -> 0 < ret ->
+  stick fixed_cfg env fuel sleep s = Some s' ->
+  sext (io_exact s2 (ready s)) (invoke_laters fixed_cfg env s2) s'.
+Proof. exact io_exact_iteration. Qed.
+Print Assumptions C18_io_exact.
+
+Theorem C18_table_consistent : forall env, env_fds_ok env ->
+  forall fuel ops s', Forall op_fds_ok ops -> srun_ops fixed_cfg env fuel ops = Some s' -> TW s'.
+Proof. exact TW_reach. Qed.
+Print Assumptions C18_table_consistent.
 
 (* IO, first half: what ppoll leaves in a slot is what is ready for THAT slot's descriptor,
    restricted to what it asked for (plus ERR/HUP/NVAL), and nothing for a free slot *)
